@@ -1,0 +1,60 @@
+//go:build verif
+
+package compress
+
+// Contracts for the verifier in /verif (comment-only; see /verif/DESIGN.md §3).
+
+// abstract codecs: what the compression libraries compute (assumed inverse pairs, see libspec)
+//@ spec func gzipEnc(b Bytes, level int) Bytes
+//@ spec func gzipDec(b Bytes) Bytes
+//@ spec func brEnc(b Bytes, level int) Bytes
+//@ spec func brDec(b Bytes) Bytes
+// number of compress (encoder) calls performed by this thread
+//@ ghost local $enc int
+
+// the registries only ever hold services built by NewService (NewServices, Reset)
+//@ func (cs *compressSrvs) Get(name string) (srv *compressSrv)
+//@   trusted
+//@   nopanic
+//@   ensures [nonnil] srv != nil
+
+//@ func Get(name string) (srv *compressSrv)
+//@   nopanic
+//@   ensures [nonnil] srv != nil
+//@ axiom [default-compress]: defaultCompressSrvList != nil && defaultCompressSrv != nil
+
+// effective levels after clamping (documented fall-back to the library defaults)
+//@ spec func gzipLevel(l int) int := (l <= 0 || l > 9) ? -1 : l
+//@ spec func brLevel(l int) int := (l <= 0 || l > 11) ? 6 : l
+//@ spec func levelOf(srv *compressSrv, enc string) int
+
+//@ func (srv *compressSrv) GetLevel(encoding string) (level int)
+//@   requires [recv] srv != nil
+//@   nopanic
+//@   ensures [def] level == levelOf(srv, encoding)
+
+//@ func (srv *compressSrv) Gzip(data []byte) (out []byte, err error)
+//@   requires [recv] srv != nil
+//@   modifies $enc
+//@   nopanic
+//@   ensures [count] $enc == old($enc) + 1
+//@   ensures [codec] err == nil ==> gzipDec(contents(out)) == contents(data) && len(out) > 0
+//@   ensures [level] err == nil ==> contents(out) == gzipEnc(contents(data), gzipLevel(levelOf(srv, "gzip")))
+
+//@ func (srv *compressSrv) Brotli(data []byte) (out []byte, err error)
+//@   requires [recv] srv != nil
+//@   modifies $enc
+//@   nopanic
+//@   ensures [count] $enc == old($enc) + 1
+//@   ensures [codec] err == nil ==> brDec(contents(out)) == contents(data) && len(out) > 0
+//@   ensures [level] err == nil ==> contents(out) == brEnc(contents(data), brLevel(levelOf(srv, "br")))
+
+//@ func (srv *compressSrv) Gunzip(data []byte) (out []byte, err error)
+//@   requires [recv] srv != nil
+//@   nopanic
+//@   ensures [codec] err == nil ==> contents(out) == gzipDec(contents(data))
+
+//@ func (srv *compressSrv) BrotliDecode(data []byte) (out []byte, err error)
+//@   requires [recv] srv != nil
+//@   nopanic
+//@   ensures [codec] err == nil ==> contents(out) == brDec(contents(data))
